@@ -96,11 +96,11 @@ func (o outcome) json() any {
 	case "value":
 		return jsonOf(o.node)
 	case "novalue":
-		return map[string]any{"k": "novalue"}
+		return []any{"novalue"}
 	case "error":
-		return map[string]any{"k": "error"}
+		return []any{"error"}
 	}
-	return map[string]any{"k": "panic", "v": o.msg}
+	return []any{"panic", o.msg}
 }
 
 func selectReal(sel selector.Selector, n ipld.Node) (o outcome) {
@@ -129,8 +129,16 @@ func parseReal(text string) (sel selector.Selector, err error) {
 }
 
 // agrees compares a real outcome with an expected Values.tla JSON outcome.
-func agrees(o outcome, expect map[string]any) (bool, error) {
-	k, _ := expect["k"].(string)
+func kindOf(v []any) string {
+	if len(v) == 0 {
+		return ""
+	}
+	k, _ := v[0].(string)
+	return k
+}
+
+func agrees(o outcome, expect []any) (bool, error) {
+	k := kindOf(expect)
 	switch k {
 	case "dontcare":
 		return true, nil
@@ -228,9 +236,9 @@ func consumesAll(views []segView, input string) bool {
 
 type selCase struct {
 	Sel    []segRec         `json:"sel"`
-	Val    map[string]any   `json:"val"`
-	Expect map[string]any   `json:"expect"`
-	Hist   []map[string]any `json:"hist"`
+	Val    []any   `json:"val"`
+	Expect []any   `json:"expect"`
+	Hist   [][]any `json:"hist"`
 }
 
 type selTextCase struct {
@@ -282,7 +290,7 @@ func init() {
 				rep.violation(json.RawMessage(raw), "a well-formed selector parses", err.Error(), "selector.Parse("+text+")")
 				continue
 			}
-			if k, _ := c.Expect["k"].(string); k != "error" && k != "dontcare" {
+			if k := kindOf(c.Expect); k != "error" && k != "dontcare" {
 				rep.nontrivial(string(raw))
 			}
 			full := selectReal(sel, node)
@@ -321,7 +329,7 @@ func init() {
 						break
 					}
 					rest := selectReal(ssel, mid.node)
-					if hk, _ := c.Expect["k"].(string); hk != "dontcare" && !sameOutcome(rest, full) {
+					if kindOf(c.Expect) != "dontcare" && !sameOutcome(rest, full) {
 						rep.violation(json.RawMessage(raw), full.json(), rest.json(),
 							fmt.Sprintf("not compositional: %s then %s differs from %s", ptext, stext, text))
 						break
@@ -385,21 +393,21 @@ func init() {
 	drivers["selector"] = func(seed int64, n int, emit func(any)) error {
 		rng := rand.New(rand.NewSource(seed))
 		names := [][]int{{97}, {98}, {}, {233, 97}, {97, 45, 49}}
-		var genVal func(d int) map[string]any
-		genVal = func(d int) map[string]any {
+		var genVal func(d int) []any
+		genVal = func(d int) []any {
 			k := rng.Intn(11)
 			if d <= 0 && k >= 9 {
 				k = rng.Intn(9)
 			}
 			switch k {
 			case 0:
-				return map[string]any{"k": "null"}
+				return []any{"null"}
 			case 1:
-				return map[string]any{"k": "bool", "v": rng.Intn(2) == 0}
+				return []any{"bool", rng.Intn(2) == 0}
 			case 2, 3:
-				return map[string]any{"k": "int", "v": float64(rng.Intn(9) - 3)}
+				return []any{"int", float64(rng.Intn(9) - 3)}
 			case 4:
-				return map[string]any{"k": "float", "v": float64(rng.Intn(9) - 3), "sp": "fin"}
+				return []any{"float", float64(rng.Intn(9) - 3), "fin"}
 			case 5, 6:
 				var cps []any
 				for i := rng.Intn(5); i > 0; i-- {
@@ -408,21 +416,21 @@ func init() {
 				if cps == nil {
 					cps = []any{}
 				}
-				return map[string]any{"k": "string", "v": cps}
+				return []any{"string", cps}
 			case 7:
 				bs := []any{}
 				for i := rng.Intn(5); i > 0; i-- {
 					bs = append(bs, float64(rng.Intn(256)))
 				}
-				return map[string]any{"k": "bytes", "v": bs}
+				return []any{"bytes", bs}
 			case 8:
-				return map[string]any{"k": "link", "v": []string{"c1", "c2"}[rng.Intn(2)]}
+				return []any{"link", []string{"c1", "c2"}[rng.Intn(2)]}
 			case 9:
 				vs := []any{}
 				for i := rng.Intn(5); i > 0; i-- {
 					vs = append(vs, genVal(d-1))
 				}
-				return map[string]any{"k": "list", "v": vs}
+				return []any{"list", vs}
 			default:
 				es := []any{}
 				used := map[string]bool{}
@@ -436,9 +444,9 @@ func init() {
 					for _, c := range nm {
 						key = append(key, float64(c))
 					}
-					es = append(es, map[string]any{"key": key, "val": genVal(d - 1)})
+					es = append(es, []any{key, genVal(d - 1)})
 				}
-				return map[string]any{"k": "map", "v": es}
+				return []any{"map", es}
 			}
 		}
 		genSeg := func() segRec {
@@ -525,7 +533,7 @@ func init() {
 			text := selText(segs)
 			sel, err := parseReal(text)
 			if err != nil {
-				emit(map[string]any{"ev": "Select", "text": text, "sel": segs, "val": val, "res": map[string]any{"k": "parsefail", "v": err.Error()}})
+				emit(map[string]any{"ev": "Select", "text": text, "sel": segs, "val": val, "res": []any{"parsefail", err.Error()}})
 				continue
 			}
 			emit(map[string]any{"ev": "Select", "text": text, "sel": segs, "val": val, "res": selectReal(sel, node).json()})
